@@ -6,7 +6,7 @@ NOTES = ('Every check lowers the instantiated PEGTL templates from /repo/include
 
 CLAIMS = {
     'C10': {
-        'text': 'For every shipped single-unit rule family (ASCII and ABNF classes, one/not_one/range/not_range/ranges over peek_char, UTF-8, UTF-16 BE/LE, UTF-32 BE/LE, uint8/16/32/64 BE/LE incl. masked variants) the real match() body, lowered mechanically, is proved for ALL window contents, lengths 0..4096 and cursor offsets to succeed exactly when the next bytes form a well-formed unit (specification written from the Unicode tables / byte arithmetic, not from the code) whose value lies in the documented set, and then to consume exactly the unit length. Loop-free bodies, full-domain symbolic bytes: complete proofs.',
+        'text': 'For every shipped single-unit rule family (ASCII and ABNF classes, one/not_one/range/not_range/ranges over peek_char, UTF-8, UTF-16 BE/LE, UTF-32 BE/LE, uint8/16/32/64 BE/LE incl. masked variants, the single-element specialisation range<R,Peek,C,C> in both polarities, contrib/predicates.hpp predicate_not / predicates_and / predicates_or over peek_char and peek_utf8) the real match() body, lowered mechanically, is proved for ALL window contents, lengths 0..4096 and cursor offsets to succeed exactly when the next bytes form a well-formed unit (specification written from the Unicode tables / byte arithmetic, not from the code) whose value lies in the documented set, and then to consume exactly the unit length. Loop-free bodies, full-domain symbolic bytes: complete proofs.',
         'note': 'Documented byte sets transcribed by hand from doc/Rule-Reference.md / RFC 5234; template constants are those of the listed instantiations (test_one with symbolic constants is a separate job family); istring folding is in group `str`.',
         'design': 'DESIGN.md section 5 C10',
     },
